@@ -1,15 +1,15 @@
 INIT Init
 NEXT Next
 CONSTANTS
-  Pos = {1, 2, 3}
+  Pos = {1, 2}
   ReadBases = {"A"}
   Quals = {10}
-  MaxReads = 2
+  MaxReads = 3
   Refs <- RefsTwo
-  UMIs = {1}
+  UMIs = {1, 2}
   Cap = 0
-  MaxNs1 = {0, 2}
-  Variant = "split_ge"
+  MaxNs1 = {0}
+  Variant = "design"
 INVARIANT Inv_C15_Exists
 INVARIANT Inv_C15_Blocks
 INVARIANT Inv_C15_Lens
